@@ -236,19 +236,39 @@ def run(ctx):
     ok = len(direct) == 1 and direct[0][0] == "builder::exec::Exec::arg" and not [n for n in names if "split" in n or "words" in n or "lines" in n]
     ctx.ob("R16.3", "shell.string-is-one-arg", ok, sh.loc(0), "Exec::shell must pass its string to exactly one Exec::arg call and never split it (calls: %s)" % [n.split("::")[-1] for n in names])
     r0 = Th.local(0)
-    okc = r0[0] == "call" and r0[1] == "builder::exec::Exec::arg" and r0[2][0][0] == "call" and r0[2][0][1] == "builder::exec::Exec::args" and r0[2][0][2][0][0] == "call" and r0[2][0][2][0][1] == "builder::exec::Exec::cmd"
-    detail = ""
-    if okc:
-        c0 = r0[2][0][2][0][2][0]
-        sl = M.noref(r0[2][0][2][1])
-        okc = c0[0] in ("index", "cidx") and c0[1][0] == "const" and c0[1][2] == "builder::os::SHELL" and (const_of(c0[2]) == 0 if c0[0] == "index" else c0[2] == 0)
-        # &SHELL[1..]: promoted copy of SHELL indexed from 1
-        okp = sl[0] == "call" and "index" in sl[1].lower() and sl[2][1][0] == "agg" and sl[2][1][1][1] == "std::ops::RangeFrom" and const_of(sl[2][1][2][0]) == 1
-        prom = sh.j.get("promoted", [])
-        okp = okp and any(any(s["k"] == "assign" and s["r"]["k"] == "use" and s["r"]["op"].get("name") == "builder::os::SHELL" for b in pb["blocks"] for s in b["stmts"]) for pb in prom)
-        okc = okc and okp
-        detail = "cmd = SHELL[0]: %s, args = &SHELL[1..]: %s" % (c0[0] in ("index", "cidx"), okp)
-    ctx.ob("R16.3", "shell=cmd(SHELL[0]).args(SHELL[1..]).arg(s)", okc, sh.loc(0), "Exec::shell = %s ; %s" % (M.term_str(r0)[:140], detail))
+    # the builder chain, innermost first: cmd(SHELL[0]) [.args(&SHELL[1..]) | .arg(SHELL[1])...] .arg(cmdstr)
+    chain_ = []
+    x_ = r0
+    while x_[0] == "call" and x_[1] in ("builder::exec::Exec::arg", "builder::exec::Exec::args"):
+        chain_.append((x_[1].split("::")[-1], x_[2][1]))
+        x_ = x_[2][0]
+    chain_.reverse()
+    nshell = len(prog.consts.get("builder::os::SHELL") or [])
+
+    def shell_idx(t_):
+        t_ = M.noref(t_)
+        if t_[0] in ("index", "cidx") and t_[1][0] == "const" and t_[1][2] == "builder::os::SHELL":
+            return const_of(t_[2]) if t_[0] == "index" else t_[2]
+        return None
+    okc = x_[0] == "call" and x_[1] == "builder::exec::Exec::cmd" and shell_idx(x_[2][0]) == 0 and bool(chain_) and chain_[-1] == ("arg", cmdstr)
+    covered = [0]
+    for kind_, a_ in chain_[:-1]:
+        if kind_ == "arg" and shell_idx(a_) is not None:
+            covered.append(shell_idx(a_))
+        elif kind_ == "args":
+            sl = M.noref(a_)
+            prom = sh.j.get("promoted", [])
+            is_shell_copy = any(any(s2["k"] == "assign" and s2["r"]["k"] == "use" and s2["r"]["op"].get("name") == "builder::os::SHELL" for b2 in pb["blocks"] for s2 in b2["stmts"]) for pb in prom) or \
+                M.contains(sl, lambda u: u[0] == "const" and u[2] == "builder::os::SHELL")
+            if sl[0] == "call" and "index" in sl[1].lower() and sl[2][1][0] == "agg" and sl[2][1][1][1] == "std::ops::RangeFrom" and is_shell_copy:
+                covered += list(range(const_of(sl[2][1][2][0]), nshell))
+            else:
+                okc = False
+        else:
+            okc = False
+    okc = okc and covered == list(range(nshell)) and nshell >= 1
+    detail = "SHELL entries passed before the string, in order: %s of %d" % (covered, nshell)
+    ctx.ob("R16.3", "shell=cmd(SHELL[0])+SHELL[1..]+arg(s)", okc, sh.loc(0), "Exec::shell = %s ; %s" % (M.term_str(r0)[:140], detail))
     shv = prog.consts.get("builder::os::SHELL")
     ctx.ob("R16.3", "SHELL=[sh,-c]", shv == ["sh", "-c"] if "linux" in (prog.target or "") or "unix" in (prog.target or "") or True else True, "", "unix SHELL constant = %s (must be [\"sh\", \"-c\"])" % (shv,))
 
